@@ -77,6 +77,16 @@ def _setup(ex, case):
     ex.calls = 0
     ex.writes_seen = 0
     ex.probes = {}
+    fc = case.get("faults")
+    if case.get("fault_table") is not None:
+        w.ctl.faults = {int(k): tuple(v) for k, v in case["fault_table"].items()}
+    elif fc:
+        import random
+        frng = random.Random(case.get("fault_seed", 0))
+
+        def gen(idx, side, name, a):
+            return ("temp", False) if frng.random() < fc["rate"] else None
+        w.ctl.fault_gen = gen
     if ex.pred:
         w.cs.register_auto_sync_callback(lambda path: path.rsplit("/", 1)[-1] == ex.pred)
     ex.monitors.append(Invariant())
@@ -227,7 +237,14 @@ def _gen(rng, ex, case, style):
         t0 = w.tree(0) or {}
         rfiles = [k for k, v in t1.items() if v[0] == "f"]
         item = None
-        if r < 0.35:
+        if r < 0.06 and rfiles:
+            # a remote file is deleted and a new one made under the same name (its old entry stays behind as a tombstone)
+            f = rng.choice(rfiles)
+            if not ex.apply(["U", 1, "delete", f]):
+                continue
+            sched_after_op(rng, ex, style)
+            item = ["U", 1, "create", f, ex.new_payload()]
+        elif r < 0.35:
             op = propose(rng, t1, {"create": 4, "write": 3, "delete": 1, "mkdir": 2}, ex.new_payload)
             if op:
                 item = ["U", 1] + list(op)
@@ -258,7 +275,21 @@ def generate(rng, tier, index):
     flav = rng.choice(["oo", "po", "of"])
     style = weighted(rng, (("eager", 3), ("batched", 4), ("split", 3)))
     case = {"prop": ID, "cfg": {"flavour": flav}, "style": style, "family": style, "pred": rng.choice([None, None, "c.txt", "a"])}
-    return drive_smart(case, lambda ex: _gen(rng, ex, case, style), generating=True)
+    holder = {}
+    if index % 5 == 0:
+        # a fifth of the runs: the providers raise temporary errors at 2-5 % of the engine's calls until the epilogue (punted first
+        # attempts, failed requests); the same oracles apply once the faults have stopped
+        case["faults"] = {"kinds": ["temp"], "rate": (0.02, 0.05)[(index // 5) % 2]}
+        case["fault_seed"] = index * 7919 + 13
+        case["family"] = style + "-faults"
+
+    def body(ex):
+        holder["ex"] = ex
+        _gen(rng, ex, case, style)
+    res = drive_smart(case, body, generating=True)
+    if case.get("faults") and holder.get("ex") is not None:
+        res["case"]["fault_table"] = {str(k): list(v) for k, v in holder["ex"].world.ctl.faults.items()}
+    return res
 
 
 def drive_smart(case, body, generating=False):
